@@ -26,6 +26,22 @@ def run(ctx):
                          "stretch (%s): a highlighted span can exceed the query by more than one character"
                          % g.describe(),
                          {"witness": "query 'abcde' against title 'ab12cde' highlights all 7 characters"})
+            # the tolerance check must lie on every path to new_pair (a branch that skips it admits any length difference)
+            np_sites = []
+            for b2 in ctx.facts.fns():
+                for bi2, t2 in b2.calls():
+                    if (t2.get("rcn") or "").endswith("WordMatch::new_pair"):
+                        c2 = ctx.model.creation.get(b2.id) if b2.kind == "closure" else None
+                        np_sites.append((c2[0], c2[1]) if c2 else (b2, bi2))
+            for (nb_, nbi_) in np_sites:
+                if nb_.id == g.body.id:
+                    k3 = "slice-gate-dominates-new_pair:%s" % nb_.id
+                    if ctx.cfg(nb_).dominates(g.bi, nbi_):
+                        ctx.ok("R05.a", k3, where(nb_, nbi_), "every path to new_pair passes the |qslice - rslice| check", nontrivial=True)
+                    else:
+                        ctx.fail("R05.a", k3, where(nb_, nbi_), "some path reaches WordMatch::new_pair without the |qslice - rslice| check "
+                                 "(the check sits on one branch only)",
+                                 {"witness": "finished query word 'adjstmnt ' matches and highlights the 10-letter 'adjustment'"})
             if not g.accepts(1):
                 ctx.assumed("R05.a", "tolerance-zero:%s" % g.body.id, where(g.body, g.bi),
                             "tolerance below 1 is stricter than C05 needs (affects C04, not C05)")
@@ -39,7 +55,9 @@ def run(ctx):
     # "a query that contains a letter or digit" has at least one word: strip/split classes are what their names say
     RK.class_predicates(ctx, "R05.d")
     RK.sibling_agreement(ctx, "R05.d", "R05.d", stages_too=False, only=("query",))
-    return info("R05.b: hits can only come from index candidates = enumerate positions whose freshly reset counter is > 0, counted "
+    from . import C20 as RC20
+    RC20.buffer_rules(ctx, "R20.c", None, None)
+    return info("R20.c: the search runner clears the result buffer on every path. R05.b: hits can only come from index candidates = enumerate positions whose freshly reset counter is > 0, counted "
                 "over the shared gram generator; R05.c: records without a word match are filtered out; R05.d: NotAlphaNum / split "
                 "classes are the std predicates, so a query with a letter or digit has a word. R05.a: the |qslice - rslice| gate on the path to WordMatch::new_pair is located by data-flow "
                 "(integer abs of a difference of the two loop indices, polarity from which branch still reaches "
